@@ -22,6 +22,7 @@ RULE = ('every (query supply, reference supply, option vector, ordered selection
 ASSUMPTIONS = ['3 query and 3 reference genomes (one identical pair, one overlapping, one disjoint-ish); parameter sets: default 11/ATGAC, explicit 6/AT']
 
 QG = ['g1', 'g2', 'g4']
+QX = ['E.faecalis_V583', 'P.fa.lciparum.fasta_x', 'empty1']      # names containing their own extension text; a genome without k-mers
 RG = [0, 2, 5]
 QSUP = ['files', 'list', 'sig']
 RSUP = ['files', 'list', 'sig', 'db', 'square', 'files-samelabels', 'list-samelabels']
@@ -53,8 +54,13 @@ def cases(tier):
 				# options as deviations on one selection
 				a0 = None if qsup == 'sig' else [QG[1], QG[0]]
 				b0 = [RG[2], RG[0]] if rsup in ('files', 'list') else None
-				for kp, c in (('explicit', None), ('none', 1), ('none', 2), ('explicit', 2)):
+				for kp, c in (('explicit', None), ('none', 1), ('none', 2), ('explicit', 2), ('explicit17', None)):
+					if kp == 'explicit17' and (qsup == 'sig' or rsup in ('sig', 'db')):
+						continue
 					out.append((qsup, rsup, a0, b0, kp, c))
+				if qsup != 'sig':
+					out.append((qsup, rsup, [QX[0], QG[0], QX[1]], [RG[0]] if rsup in ('files', 'list') else None, 'none', None))
+					out.append((qsup, rsup, [QX[2], QX[0]], [RG[1], RG[0]] if rsup in ('files', 'list') else None, 'explicit', None))
 	else:
 		for qsup in QSUP:
 			for rsup in RSUP:
@@ -75,6 +81,14 @@ def plan(tier, seed):
 	return [('t_cli', dict(tier=tier, shard=s, nshards=nsh)) for s in range(nsh)]
 
 
+ALLSEGS = dict(clifix.QUERIES, **clifix.EXTRA_QUERIES)
+ALLFILES = dict(clifix.QFILES, **clifix.EXTRA_QFILES)
+
+
+def ALLQ(fx):
+	return dict(fx.q, **fx.qx)
+
+
 def run_case(sh, fx, d, case):
 	qsup, rsup, qsel, rsel, kp, cores = case
 	out = os.path.join(d, 'dist.csv')
@@ -86,17 +100,20 @@ def run_case(sh, fx, d, case):
 	if kp == 'explicit':
 		args += ['-k', '6', '-p', 'AT']
 		pname = 'P0'
+	elif kp == 'explicit17':
+		args += ['-k', '17', '-p', 'AT']          # indices need more than 32 bits
+		pname = 'K17'
 	if cores is not None:
 		args += ['-c', str(cores)]
 	# queries
 	if qsup == 'files':
 		for l in qsel:
-			args += ['-q', fx.q[l]]
-		qlabels, qsegs = list(qsel), [clifix.QUERIES[l] for l in qsel]
+			args += ['-q', ALLQ(fx)[l]]
+		qlabels, qsegs = list(qsel), [ALLSEGS[l] for l in qsel]
 	elif qsup == 'list':
-		lf = clifix.write_listfile(os.path.join(d, 'ql.txt'), [clifix.QFILES[l] for l in qsel])
+		lf = clifix.write_listfile(os.path.join(d, 'ql.txt'), [ALLFILES[l] for l in qsel])
 		args += ['--ql', lf, '--qdir', os.path.join(fx.d, 'q')]
-		qlabels, qsegs = list(qsel), [clifix.QUERIES[l] for l in qsel]
+		qlabels, qsegs = list(qsel), [ALLSEGS[l] for l in qsel]
 	else:
 		args += ['--qs', fx.qsig['P0']]
 		pname = 'P0'
@@ -112,7 +129,7 @@ def run_case(sh, fx, d, case):
 		rlabels, rsegs = [f'ref{i}' for i in rsel], [clifix.REFS[i] for i in rsel]
 	elif rsup in ('files-samelabels', 'list-samelabels'):
 		# the references carry exactly the labels of the queries (same file names in another directory) but are different genomes
-		rq = list(qsel) if qsel is not None else [QG[0], QG[1]]
+		rq = [l for l in (qsel or []) if l in clifix.QUERIES] or [QG[0], QG[1]]
 		if rsup == 'files-samelabels':
 			for l in rq:
 				args += ['-r', fx.rsame[l][0]]
